@@ -37,9 +37,9 @@ Definition hgood (hi:list (N*ver)) (h:hstate) : Prop :=
   match h with
   | HWaitHdr _ _ _ => True
   | HWaitDir _ q _ hv o l d =>
-      In (t_name q, hv) hi /\ zoom_ok hv (t_z q) = true /\ ext_ok hv (t_ext q) = true /\ (d <= 3)%nat /\
+      t_kind q = 0 /\ In (t_name q, hv) hi /\ zoom_ok hv (t_z q) = true /\ ext_ok hv (t_ext q) = true /\ (d <= 3)%nat /\
       answer hv q = walk hv o l (t_id q) (4 - d) /\ o <> 0
-  | HWaitTile q _ hv o l => In (t_name q, hv) hi /\ answer hv q = R200 hv (tile_base hv + o) l
+  | HWaitTile q _ hv o l => In (t_name q, hv) hi /\ answer hv q = R200 hv (rbase hv q + o) l
   end.
 
 Definition good_done (hi:list (N*ver)) (q:treq) (r:resp) : Prop :=
@@ -134,16 +134,20 @@ Proof.
     2:{ out3. exact I. }
     specialize (Hwk Eok). destruct (cv_pay cv) as [[hv|v o l]|]; [| |contradiction].
     + destruct Hwk as (_ & Hin & _). cbn [kn hdrkey] in Hin.
+      destruct (t_kind q =? 0) eqn:Ek; cbn [negb].
+      2:{ (* metadata / TileJSON: straight to the conditional read of the metadata section *)
+          out3. split; [|reflexivity]. cbn. split; [exact Hin|]. unfold answer, rbase. rewrite Ek. cbn [negb]. rewrite N.add_0_l. reflexivity. }
+      apply N.eqb_eq in Ek.
       destruct (zoom_ok hv (t_z q)) eqn:Ez; cbn [negb].
       2:{ out3. exact I. }
       destruct (ext_ok hv (t_ext q)) eqn:Ex; cbn [negb].
-      2:{ out3. exists hv. split; [assumption|]. unfold answer. rewrite Ez, Ex. reflexivity. }
+      2:{ out3. exists hv. split; [assumption|]. unfold answer. rewrite Ek, Ez, Ex. reflexivity. }
       out3. split.
-      * cbn. repeat split; auto; try lia. unfold answer. rewrite Ez, Ex. reflexivity.
+      * cbn. repeat split; auto; try lia. unfold answer. rewrite Ek, Ez, Ex. reflexivity.
       * cbn. split; [reflexivity|]. eexists _, _. split; [reflexivity|]. split; [reflexivity|]. intros E0 _. cbn in E0. exfalso. exact (root_off_nz _ E0).
     + destruct Hwk as (_ & _ & _ & _ & _ & Hko). cbn in Hko. destruct Hko; congruence.
   - (* waiting for a directory *)
-    subst k. cbn [hgood] in Hg. destruct Hg as (Hin & Hz & Hx & Hd & Hans & Ho).
+    subst k. cbn [hgood] in Hg. destruct Hg as (Hkind & Hin & Hz & Hx & Hd & Hans & Ho).
     unfold deliver. destruct (cv_bad cv).
     { unfold retry. destruct a.
       - out3. cbn. repeat split; auto. eexists _, _. split; [reflexivity|]. split; [reflexivity|]. intros _ _. reflexivity.
@@ -159,7 +163,7 @@ Proof.
       assert (E4: (4 - d = S (3 - d))%nat) by lia. rewrite E4, walk_step in Hans.
       destruct (dir_lookup hv o l (t_id q)) as [|to tl|lo ll] eqn:El.
       * out3. exists hv. auto.
-      * out3. cbn. auto.
+      * out3. cbn. split; [split; [exact Hin|]|reflexivity]. unfold rbase. rewrite Hkind. exact Hans.
       * destruct (Nat.leb_spec 3 d) as [H3|H3].
         -- out3. exists hv. split; [assumption|].
            assert (d = 3)%nat by lia. subst d. cbn in Hans. exact Hans.
